@@ -24,6 +24,30 @@ CLAIMED = {
                  "subnormals; float % with unrepresentable quotient) both outcomes are accepted and counted as 'underdetermined'."),
         "design_ref": "DESIGN.md section 4 C07",
     },
+    "C06": {
+        "level": "exploration",
+        "technique": "property-based testing: exhaustive enumeration of short strings over a numeric alphabet + Hypothesis-mutated numerals against a regex model of the documented number grammar",
+        "text": ("All strings up to length 3 (quick) / 4 (thorough) over a 22-symbol numeric alphabet, every grammar production at boundary "
+                 "magnitudes (2^63, 2^64, 1e308/1e309, 400 digits) with sign/prefix/leading-zero variants, and Hypothesis one-edit mutations of "
+                 "valid numerals are fed as field values under default/-S/-A/-O through CSV, DKVP, JSON-string and JSON-number contexts; "
+                 "typeof, is_* predicates, $x+0, fmtifnum, retained text and `sort -nf` placement must all agree with one classification "
+                 "computed by an independent regex model of the documented grammar. Search, not proof."),
+        "note": ("Trusted: the transcription of the documented grammar in vlib/model_num.py:infer; Python int()/float(). Underdetermined by "
+                 "docs (accepted either way, counted): prefixed literals beyond 64 bits, signed/binary/octal literals with the top bit set, "
+                 "leading-zero floats, numerals overflowing to +-Inf. DSL literals are only sampled (statement is about field values)."),
+        "design_ref": "DESIGN.md section 4 C06",
+    },
+    "C03": {
+        "level": "exploration",
+        "technique": "property-based testing: Hypothesis-generated streams and verb chains, byte-exact metamorphic pass-through oracle via an independent CSV/TSV reader",
+        "text": ("Generated streams (2 or 12 bystander fields holding hex/binary/octal/leading-zero/exponent/excess-digit spellings and hostile byte "
+                 "strings incl. invalid UTF-8) run through chains of 1-3 verbs/DSL programs drawn from ~95 variants that read but never assign the "
+                 "bystanders, under default/-S/-A/-O, batch sizes 1/2/500 and CSV/TSV/DKVP; every output record is traced by id and each bystander's "
+                 "bytes and relative order compared with the input. Second sub-check pins the two documented exceptions (JSON output re-renders exactly "
+                 "the non-JSON numerals, value preserved; --ofmt re-renders exactly the floats as C printf)."),
+        "note": "Trusted: Python csv as RFC-4180 codec, my IANA-TSV codec, vlib/model_num.infer for the exception sub-check. Verbs outside the pool are not covered.",
+        "design_ref": "DESIGN.md section 4 C03",
+    },
 }
 
 NOT_YET = "check not built yet in this session (see DESIGN.md section 8 build order); will be claimed when its sub-checks run"
